@@ -306,8 +306,8 @@ RULE = ("uploads layer: 1-3 concurrent uploads (0..4 x 65,535 bytes around the w
 PROP = Prop(
     P, level="exploration", rule=RULE,
     layers=[
-        Layer("uploads", strategy=upload_scenarios, execute=execute_uploads, budget={"quick": 2000, "thorough": 60000}),
-        Layer("inline", cases=inline_cases, execute=execute_inline),
+        Layer("uploads", stall_is_violation=True, strategy=upload_scenarios, execute=execute_uploads, budget={"quick": 2000, "thorough": 60000}),
+        Layer("inline", stall_is_violation=True, cases=inline_cases, execute=execute_inline),
     ],
     assumptions=["the peer's own window / frame-size accounting (vf/peers/h2.py) is the reference; increases of INITIAL_WINDOW_SIZE are applied when sent, decreases "
                  "when ACKed (lenient in the client's favour)",
